@@ -90,12 +90,21 @@ def _wrap_reach(orig):
     def get_reachable_set_from(self, nodes):
         site = mon.caller_site(2)
         # the real function must receive the caller's own argument object
-        # (its behaviour may depend on the container type); only one-shot
-        # iterators are materialised, because the monitor has to read them too
-        if hasattr(nodes, '__next__'):
-            nodes = list(nodes)
+        # (its behaviour may depend on the container type).  A one-shot
+        # iterator is split with itertools.tee: the real function still gets
+        # a one-shot iterator, the monitor reads the other branch.
+        oneshot = hasattr(nodes, '__next__')
+        if oneshot:
+            # documented as "a container of nodes": a one-shot iterator is
+            # outside the property's domain (the code reads it twice)
+            LOG.counters['c13.reach_oneshot_out_of_domain'] += 1
+            return orig(self, nodes)
         try:
-            X = list(nodes)
+            if oneshot:
+                nodes, mine = itertools.tee(nodes)
+                X = list(mine)
+            else:
+                X = list(nodes)
             V, rows = _rows_of(self)
             idx = {v: i for i, v in enumerate(V)}
             before = _snap(self)
@@ -137,7 +146,7 @@ def _wrap_reach(orig):
         if not bad and _snap(self) != before:
             bad = 'receiver changed'
         try:
-            if list(nodes) != X and set(nodes) != set(X):
+            if not oneshot and list(nodes) != X and set(nodes) != set(X):
                 LOG.violation('c13.argument', PROP + '-diag',
                               _case(V, rows, {'X': [repr(x) for x in X]}),
                               sorted(map(repr, nodes)),
@@ -194,10 +203,12 @@ def _wrap_reversed(orig):
 def _wrap_subgraph(orig):
     def get_subgraph(self, nodes):
         site = mon.caller_site(2)
-        if hasattr(nodes, '__next__'):
-            nodes = list(nodes)
         try:
-            X = list(nodes)
+            if hasattr(nodes, '__next__'):
+                nodes, mine = itertools.tee(nodes)
+                X = list(mine)
+            else:
+                X = list(nodes)
             V, rows = _rows_of(self)
             idx = {v: i for i, v in enumerate(V)}
             before = _snap(self)
@@ -363,7 +374,7 @@ def drive(rows, order, namer, style, subsets, foreign=False):
             kind = (xm + len(rows[0:1]) + n) % 5
             G.get_reachable_set_from(
                 [X, set(X), frozenset(X), tuple(X),
-                 (x for x in X)][kind])
+                 dict.fromkeys(X).keys()][kind])
             Y = list(X)
             if foreign:
                 Y.append('__not_a_node__')
